@@ -322,10 +322,249 @@ func applyOp(f string, dt *dtInfo, args []interface{}) (interface{}, error) {
 	return nil, fmt.Errorf("operands of %q have mismatched or unsupported types %T, %T", f, args[0], args[1])
 }
 
+func unInt[T integer](f string, a T) (interface{}, error) {
+	switch f {
+	case "neg":
+		return -a, nil
+	case "inv":
+		if a == 0 {
+			return nil, fmt.Errorf("integer 1/0 in the oracle (outside the specification's domain)")
+		}
+		return 1 / a, nil
+	case "square":
+		return a * a, nil
+	case "cube":
+		return a * a * a, nil
+	case "abs":
+		if a < 0 {
+			return -a, nil
+		}
+		return a, nil
+	case "sign":
+		var zero T
+		if a < zero {
+			return zero - 1, nil
+		} else if a > 0 {
+			return T(1), nil
+		}
+		return a, nil
+	}
+	return nil, fmt.Errorf("unknown integer unary function %q", f)
+}
+
+func unF64(f string, a float64) (interface{}, error) {
+	switch f {
+	case "neg":
+		return -a, nil
+	case "inv":
+		return 1 / a, nil
+	case "square":
+		return a * a, nil
+	case "cube":
+		return a * a * a, nil
+	case "abs":
+		return math.Abs(a), nil
+	case "sign":
+		if a < 0 {
+			return float64(-1), nil
+		} else if a > 0 {
+			return float64(1), nil
+		}
+		return a, nil
+	case "exp":
+		return math.Exp(a), nil
+	case "tanh":
+		return math.Tanh(a), nil
+	case "log":
+		return math.Log(a), nil
+	case "log2":
+		return math.Log2(a), nil
+	case "log10":
+		return math.Log10(a), nil
+	case "sqrt":
+		return math.Sqrt(a), nil
+	case "cbrt":
+		return math.Cbrt(a), nil
+	case "invsqrt":
+		return float64(1) / math.Sqrt(a), nil
+	}
+	return nil, fmt.Errorf("unknown float64 unary function %q", f)
+}
+
+func unF32(f string, a float32) (interface{}, error) {
+	switch f {
+	case "neg":
+		return -a, nil
+	case "inv":
+		return 1 / a, nil
+	case "square":
+		return a * a, nil
+	case "cube":
+		return a * a * a, nil
+	case "abs":
+		return math32.Abs(a), nil
+	case "sign":
+		if a < 0 {
+			return float32(-1), nil
+		} else if a > 0 {
+			return float32(1), nil
+		}
+		return a, nil
+	case "exp":
+		return math32.Exp(a), nil
+	case "tanh":
+		return math32.Tanh(a), nil
+	case "log":
+		return math32.Log(a), nil
+	case "log2":
+		return math32.Log2(a), nil
+	case "log10":
+		return math32.Log10(a), nil
+	case "sqrt":
+		return math32.Sqrt(a), nil
+	case "cbrt":
+		return math32.Cbrt(a), nil
+	case "invsqrt":
+		return float32(1) / math32.Sqrt(a), nil
+	}
+	return nil, fmt.Errorf("unknown float32 unary function %q", f)
+}
+
+func unC128(f string, a complex128) (interface{}, error) {
+	switch f {
+	case "neg":
+		return -a, nil
+	case "inv":
+		return 1 / a, nil
+	case "square":
+		return a * a, nil
+	case "cube":
+		return a * a * a, nil
+	case "exp":
+		return cmplx.Exp(a), nil
+	case "tanh":
+		return cmplx.Tanh(a), nil
+	case "log":
+		return cmplx.Log(a), nil
+	case "log10":
+		return cmplx.Log10(a), nil
+	case "sqrt":
+		return cmplx.Sqrt(a), nil
+	}
+	return nil, fmt.Errorf("unknown complex128 unary function %q", f)
+}
+
+func unC64(f string, a complex64) (interface{}, error) {
+	switch f {
+	case "neg":
+		return -a, nil
+	case "inv":
+		return 1 / a, nil
+	case "square":
+		return a * a, nil
+	case "cube":
+		return a * a * a, nil
+	case "exp":
+		return complex64(cmplx.Exp(complex128(a))), nil
+	case "tanh":
+		return complex64(cmplx.Tanh(complex128(a))), nil
+	case "log":
+		return complex64(cmplx.Log(complex128(a))), nil
+	case "log10":
+		return complex64(cmplx.Log10(complex128(a))), nil
+	case "sqrt":
+		return complex64(cmplx.Sqrt(complex128(a))), nil
+	}
+	return nil, fmt.Errorf("unknown complex64 unary function %q", f)
+}
+
 func applyUnary(f string, a interface{}) (interface{}, error) {
-	return nil, fmt.Errorf("unknown unary function %q", f)
+	switch x := a.(type) {
+	case int:
+		return unInt(f, x)
+	case int8:
+		return unInt(f, x)
+	case int16:
+		return unInt(f, x)
+	case int32:
+		return unInt(f, x)
+	case int64:
+		return unInt(f, x)
+	case uint:
+		return unInt(f, x)
+	case uint8:
+		return unInt(f, x)
+	case uint16:
+		return unInt(f, x)
+	case uint32:
+		return unInt(f, x)
+	case uint64:
+		return unInt(f, x)
+	case float32:
+		return unF32(f, x)
+	case float64:
+		return unF64(f, x)
+	case complex64:
+		return unC64(f, x)
+	case complex128:
+		return unC128(f, x)
+	}
+	return nil, fmt.Errorf("unary %q on unsupported type %T", f, a)
+}
+
+func clampInt[T integer](a, lo, hi T) T {
+	if a < lo {
+		return lo
+	}
+	if a > hi {
+		return hi
+	}
+	return a
 }
 
 func applyTernary(f string, a, b, c interface{}) (interface{}, error) {
-	return nil, fmt.Errorf("unknown ternary function %q", f)
+	if f != "clamp" {
+		return nil, fmt.Errorf("unknown ternary function %q", f)
+	}
+	switch x := a.(type) {
+	case int:
+		return clampInt(x, b.(int), c.(int)), nil
+	case int8:
+		return clampInt(x, b.(int8), c.(int8)), nil
+	case int16:
+		return clampInt(x, b.(int16), c.(int16)), nil
+	case int32:
+		return clampInt(x, b.(int32), c.(int32)), nil
+	case int64:
+		return clampInt(x, b.(int64), c.(int64)), nil
+	case uint:
+		return clampInt(x, b.(uint), c.(uint)), nil
+	case uint8:
+		return clampInt(x, b.(uint8), c.(uint8)), nil
+	case uint16:
+		return clampInt(x, b.(uint16), c.(uint16)), nil
+	case uint32:
+		return clampInt(x, b.(uint32), c.(uint32)), nil
+	case uint64:
+		return clampInt(x, b.(uint64), c.(uint64)), nil
+	case float64:
+		lo, hi := b.(float64), c.(float64)
+		if x < lo || math.IsInf(x, -1) {
+			return lo, nil
+		}
+		if x > hi || math.IsInf(x, 1) {
+			return hi, nil
+		}
+		return x, nil
+	case float32:
+		lo, hi := b.(float32), c.(float32)
+		if x < lo || math32.IsInf(x, -1) {
+			return lo, nil
+		}
+		if x > hi || math32.IsInf(x, 1) {
+			return hi, nil
+		}
+		return x, nil
+	}
+	return nil, fmt.Errorf("clamp on unsupported type %T", a)
 }
